@@ -202,6 +202,19 @@ CLAIMED["C18"] = dict(
          "upload-of-zero-bytes-refused; trusted: Coq kernel, Model/Channels.v, translator facts, extraction + driver, door verif::session",
     design="DESIGN.md 5 C18")
 
+CLAIMED["C16"] = dict(
+    text="Coq theorems on the model of the metrics bookkeeping (Model/Metrics.v) for every history of session/tunnel/UDP-socket "
+         "openings and closings, failed connects and transfers: the three gauges equal the number of live objects after every operation, "
+         "return to zero when everything is closed, closing a session releases all it owns, and only a transfer moves the traffic "
+         "counters, by exactly the uploaded bytes on inbound_traffic_bytes and the downloaded bytes on outbound_traffic_bytes of the "
+         "session's protocol. Tied by translator facts (names, label, own registry, guards and where they are held, direction mapping, "
+         "sent-bytes-only, listener paths) and by histories on the real stack (HTTP/1.1 and HTTP/2 sessions, CONNECT tunnels to a "
+         "transfer canary, failed connects, closes) with snapshots, the collect text and GETs on the metrics listener",
+    note="partial: the UDP gauge is driven by C07's live runs, not here; HTTP/3 sessions are not driven; label values are HTTP1/HTTP2/HTTP3 "
+         "in the code and http1/http2/http3 in METRICS.md (known finding metrics-label-values-upper-case); trusted: Coq kernel, "
+         "Model/Metrics.v, translator facts, extraction + driver, doors verif::session / verif::metrics",
+    design="DESIGN.md 5 C16")
+
 PENDING_REASON = "check under construction in this round (designed in DESIGN.md, not yet wired into ./check)"
 
 
